@@ -53,7 +53,19 @@ impl<'a> PruneRemotes<'a> {
         let timeout_at = Instant::now()
             .checked_add(timeout)
             .expect("Timer overflow.");
-        if next_id.is_some() {
+        // An ID has at most one entry, for the most recent request. Otherwise a check requested earlier
+        // (possibly for a previous attachment of the same remote) would fire before the remote has been
+        // idle for the full timeout.
+        remote_ids.retain(|(queued_id, _)| *queued_id != id);
+        if *next_id == Some(id) {
+            if let Some((head_id, head_timeout_at)) = remote_ids.pop_front() {
+                *next_id = Some(head_id);
+                delay.as_mut().reset(head_timeout_at);
+                remote_ids.push_back((id, timeout_at));
+            } else {
+                delay.as_mut().reset(timeout_at);
+            }
+        } else if next_id.is_some() {
             remote_ids.push_back((id, timeout_at));
         } else {
             *next_id = Some(id);
